@@ -8,9 +8,15 @@ from rv.sim.loop import EPOCH_NS, _load
 UTC_EPOCH = datetime(1970, 1, 1)
 
 
+def _local_offset():
+    """UTC offset of the process's (fixed-offset) local time zone; zero on a UTC machine."""
+    probe = 400 * 86400
+    return datetime.fromtimestamp(probe) - datetime.fromtimestamp(probe, tz=timezone.utc).replace(tzinfo=None)
+
+
 def pin(dt: datetime) -> None:
-    """Make datetime.now()/time.time() return ``dt`` (naive, TZ=UTC) exactly (microsecond resolution)."""
-    delta = dt - UTC_EPOCH
+    """Make datetime.now()/time.time() return ``dt`` (naive LOCAL time) exactly (microsecond resolution)."""
+    delta = dt - UTC_EPOCH - _local_offset()
     ns = (delta.days * 86400 + delta.seconds) * 1_000_000_000 + delta.microseconds * 1000
     _load().vclock_set_ns(ns)
 
